@@ -144,3 +144,154 @@ def g_c07(rng, tier, budget):
 
 
 GENERATORS = {"C01": g_c01, "C02": g_c02, "C07": g_c07}
+
+
+# ---------------------------------------------------------------------------------------
+# is_equal / is_prefix / is_suffix (C18)
+
+def gen_iseq(rng, tier, budget):
+    maxlen = 40 if tier == "quick" else 64
+    n = 0
+    bases = [(0, 0), (1, 3), ("E", 7), (5, "E")]   # "E": the operand ends exactly at a guard page
+    for length in range(0, maxlen + 1):
+        x = [rng.randrange(256) for _ in range(length)]
+        variants = [list(x)]
+        for p in range(length):          # every single-byte difference position
+            y = list(x)
+            y[p] ^= 1 << rng.randrange(8)
+            variants.append(y)
+        for y in variants:
+            for (bx, by) in bases:
+                bx2 = (4096 - length) % 4096 if bx == "E" else bx
+                by2 = (4096 - length) % 4096 if by == "E" else by
+                yield ("iseq %d %s %d %s" % (bx2, hx(x), by2, hx(y)), dict(family="iseq"))
+                n += 1
+        # different lengths
+        for dl in (1, 2, 5):
+            yield ("iseq 0 %s 0 %s" % (hx(x), hx(x + [7] * dl)), dict(family="iseq-len"))
+        # prefix / suffix: needle = prefix/suffix of x of every length, equal and perturbed
+        for k in range(0, length + 1, 1 if tier == "thorough" or length < 12 else 3):
+            pre, suf = x[:k], x[length - k:]
+            yield ("isprefix %d %s %d %s" % ((4096 - length) % 4096, hx(x), 1, hx(pre)), dict(family="isprefix"))
+            yield ("issuffix %d %s %d %s" % (3, hx(x), (4096 - k) % 4096, hx(suf)), dict(family="issuffix"))
+            if k:
+                q = rng.randrange(k)
+                pre2 = list(pre); pre2[q] ^= 0x80
+                suf2 = list(suf); suf2[q] ^= 0x01
+                yield ("isprefix 5 %s 9 %s" % (hx(x), hx(pre2)), dict(family="isprefix"))
+                yield ("issuffix 5 %s 9 %s" % (hx(x), hx(suf2)), dict(family="issuffix"))
+        yield ("isprefix 0 %s 0 %s" % (hx(x), hx(x + [1])), dict(family="isprefix"))
+        yield ("issuffix 0 %s 0 %s" % (hx(x), hx([1] + x)), dict(family="issuffix"))
+        if budget and n >= budget:
+            return
+
+
+# ---------------------------------------------------------------------------------------
+# needle / haystack families for substring search (DESIGN 4.2)
+
+def fib_word(n):
+    a, b = [0x61], [0x61, 0x62]
+    while len(b) < n:
+        a, b = b, b + a
+    return b[:n]
+
+
+def thue_morse(n):
+    return [0x61 + bin(i).count("1") % 2 for i in range(n)]
+
+
+def structured_needles(rng, tier):
+    out = []
+    lens = [1, 2, 3, 4, 5, 7, 8, 9, 15, 16, 17, 31, 32, 33, 34, 40, 64, 65] + ([100, 255, 256, 300, 600] if tier == "thorough" else [100, 256])
+    for L in lens:
+        out.append([0x61] * L)                                   # single letter
+        out.append(([0x61, 0x62] * L)[:L])                       # (ab)^k
+        out.append(([0x61, 0x61, 0x62] * L)[:L])                 # (aab)^k
+        out.append(fib_word(L))
+        out.append(thue_morse(L))
+        u = [rng.choice([0x61, 0x62, 0x63]) for _ in range(max(1, L // 3))]
+        out.append((u * 4)[:L])                                  # u^k prefix
+        out.append(((u * 4)[:max(0, L - 1)] + [0x7A])[:L])       # u^k v
+        out.append([rng.randrange(256) for _ in range(L)])       # random
+        out.append([0x61 + 64 * (i % 3) for i in range(L)])      # bytes equal mod 64
+        out.append([0x78] * (L - 1) + [0x79] if L > 1 else [0x79])   # rare byte at the end
+        out.append(([0x78, 0x79] + [0x61] * L)[:L])              # "xy" + a^k  (Two-Way large shift)
+    # dedupe
+    seen, res = set(), []
+    for n in out:
+        t = bytes(n)
+        if t not in seen:
+            seen.add(t)
+            res.append(n)
+    return res
+
+
+def haystacks_for(rng, needle, tier, sizes=None):
+    """haystacks assembled from the needle's own factors, near-misses and planted matches"""
+    L = len(needle)
+    out = []
+    sizes = sizes or ([0, 1, L - 1, L, L + 1, 15, 16, 17, 2 * L + 3, 63, 64, 65, 130] + ([300, 1000] if tier == "thorough" else []))
+    alphabet = sorted(set(needle)) or [0x61]
+    for H in sizes:
+        if H < 0:
+            continue
+        filler = [rng.choice(alphabet) for _ in range(H)]
+        out.append(filler)
+        # needle repeated with its last byte broken (near-periods)
+        if L:
+            near = needle[:-1] + [needle[-1] ^ 1]
+            rep = (near * (H // L + 2))[:H]
+            out.append(rep)
+            # planted match at several distances from both ends
+            if H >= L:
+                for posn in sorted(set([0, H - L, (H - L) // 2, min(H - L, 1), max(0, H - L - 1)])):
+                    for basehay in (rep, [0x2E] * H):
+                        h = list(basehay)
+                        h[posn:posn + L] = needle
+                        out.append(h[:H])
+            # own factors: needle[k:] + needle[:k] rotations concatenated
+            k = rng.randrange(L)
+            rot = needle[k:] + needle[:k]
+            out.append((rot * (H // L + 2))[:H])
+            # dense false candidates: the two rarest-looking bytes everywhere
+            out.append(([needle[0], needle[-1]] * (H // 2 + 1))[:H])
+    return out
+
+
+def words(alphabet, maxlen, minlen=0):
+    for L in range(minlen, maxlen + 1):
+        for t in itertools.product(alphabet, repeat=L):
+            yield list(t)
+
+
+def gen_substr_block(rng, tier, budget, opfmt, needle_ok=lambda n: True, hay_ok=lambda n, h: True,
+                     family="block", exhaustive_ab=(5, 9), domain="in"):
+    """opfmt(needle, hay) -> op line"""
+    n = 0
+    # exhaustive over {a,b}
+    nl, hl = exhaustive_ab if tier == "quick" else (exhaustive_ab[0] + 2, exhaustive_ab[1] + 3)
+    for needle in words([0x61, 0x62], nl):
+        if not needle_ok(needle):
+            continue
+        for hay in words([0x61, 0x62], hl, minlen=max(0, hl - 2)):
+            if hay_ok(needle, hay):
+                yield (opfmt(needle, hay), dict(family=family + "-ab", domain=domain))
+                n += 1
+                if budget and n >= budget:
+                    return
+    for needle in structured_needles(rng, tier):
+        if not needle_ok(needle):
+            continue
+        for hay in haystacks_for(rng, needle, tier):
+            if hay_ok(needle, hay):
+                yield (opfmt(needle, hay), dict(family=family + "-struct", domain=domain))
+                n += 1
+                if budget and n >= budget:
+                    return
+
+
+def g_c18(rng, tier, budget):
+    yield from gen_iseq(rng, tier, budget)
+
+
+GENERATORS.update({"C18": g_c18})
